@@ -1224,6 +1224,53 @@ func (g *vc08Gen) exhaustive(label string, n, width int) {
 	}
 }
 
+// boundary: a chain whose highest clock stops exactly at k*PageSize-1, k*PageSize and k*PageSize+1; at each stop the
+// LAST page (which at k*PageSize holds a single clock value) is corrupted — on disk + restart, and in memory — and must
+// be restored both by direct checkPage cycles and by the real background loop; the page walk of checkPage wraps
+// around exactly there
+func (g *vc08Gen) boundary(label string, k uint32) {
+	g.ops = append(g.ops, &vc08Op{Op: "new", Hist: label})
+	g.clock = map[int]uint32{}
+	g.added, g.top, g.maxClock, g.nextI = nil, nil, 0, 0
+	chainTo := func(clock uint32) {
+		for len(g.added) == 0 || g.maxClock < clock {
+			var op *vc08Op
+			if len(g.added) == 0 {
+				op = g.newTx(nil, 0)
+			} else {
+				last := g.added[len(g.added)-1]
+				op = g.newTx([]int{last}, g.clock[last]+1)
+			}
+			g.ops = append(g.ops, op)
+			g.commit(op)
+		}
+	}
+	for _, stop := range []uint32{k*PageSize - 1, k * PageSize, k*PageSize + 1} {
+		chainTo(stop)
+		pages := int(stop/PageSize) + 1
+		lastPage := stop / PageSize
+		// on disk, loaded by a restart, repaired by direct checkPage calls
+		g.ops = append(g.ops, &vc08Op{Op: "corruptDisk", Key: lastPage*PageSize + PageSize/2, Val: vc08RandHex(g.rng)},
+			&vc08Op{Op: "restart", Sus: true, fullObs: true})
+		g.ops = append(g.ops, &vc08Op{Op: "signal", Sus: true}, &vc08Op{Op: "signal", Sus: true})
+		for c := 0; c < 2*pages+1; c++ {
+			g.ops = append(g.ops, &vc08Op{Op: "check", Sus: c < 2*pages, fullObs: c == 2*pages})
+		}
+		g.ops = append(g.ops, &vc08Op{Op: "signalOK"}, &vc08Op{Op: "restart", fullObs: true})
+		// in memory, repaired by direct checkPage calls (the page counter is wherever the previous round left it)
+		g.ops = append(g.ops, &vc08Op{Op: "corruptMem", Clock: stop, Val: vc08RandHex(g.rng), Sus: true, fullObs: true},
+			&vc08Op{Op: "signal", Sus: true}, &vc08Op{Op: "signal", Sus: true})
+		for c := 0; c < 2*pages+1; c++ {
+			g.ops = append(g.ops, &vc08Op{Op: "check", Sus: c < 2*pages, fullObs: c == 2*pages})
+		}
+		g.ops = append(g.ops, &vc08Op{Op: "signalOK"})
+		// on disk, loaded by a restart, repaired by the real background loop
+		g.ops = append(g.ops, &vc08Op{Op: "corruptDisk", Key: lastPage*PageSize + PageSize/2, Val: vc08RandHex(g.rng)},
+			&vc08Op{Op: "restart", Sus: true, fullObs: true}, &vc08Op{Op: "liveRepair", fullObs: true},
+			&vc08Op{Op: "restart", fullObs: true})
+	}
+}
+
 // the first write ever fails at commit (empty disk): the reload must leave empty trees behind
 func (g *vc08Gen) firstWriteFails(label, mode string) {
 	g.ops = append(g.ops, &vc08Op{Op: "new", Hist: label})
@@ -1351,6 +1398,11 @@ func TestVerifC08(t *testing.T) {
 	}
 	for i := 0; i < exh; i++ { // every commit-failure / restart position of a short history
 		g.exhaustive(fmt.Sprintf("exhaustive-%d", i), exhN+rng.Intn(3), 1+rng.Intn(3))
+	}
+	g.boundary("boundary-1", 1) // highest clock exactly 511 / 512 / 513 with the last page corrupted
+	if thorough {
+		g.boundary("boundary-2", 2)
+		g.boundary("boundary-4", 4)
 	}
 	for i := 0; i < small; i++ { // short histories dense in rare events, 1..3 transactions per clock value
 		g.rare = 12
